@@ -1,2 +1,271 @@
-(* C02 — placeholder, statements follow *)
-From PM Require Import Lib.Bytes Net.Forward Net.ForwardFacts.
+(* C02 — the forwarded HTTP request is semantically identical to the client's.
+   Statements only; the proofs are in Net/ForwardFacts.v.
+   Model: Net/Forward.v (HttpProtocolHandler.handle_data/_parse_first_request, HttpProxyPlugin.on_request_complete/
+   on_client_data/_queue_request_for_upstream, HttpParser.add_headers/del_headers) over Http/Parser.v (HttpParser),
+   Http/Builders.v (build, builders), Http/Upstream.v (connect_upstream), Net/Auth.v (AuthPlugin decision).
+   Reference side (specifications, Net/Forward.v): abstract syntax [request] of a well-formed proxy request with
+   its rendering, [wf_request], the forwarded request demanded [expected_fwd], and the reference request parser
+   [ref_parse_request] assembled from the RFC 7230 recognisers of Http/Grammar.v. *)
+From PM Require Import Lib.Bytes Lib.PyStr Lib.PyStrFacts Http.Url Http.Chunk Http.Parser Http.ParserFacts Http.Builders
+  Http.Grammar Http.UrlSpec Net.Forward Net.ForwardFacts.
+From Coq Require Import ZArith.
+
+(* ===================================================================================== *)
+(* 1. what _queue_request_for_upstream emits, for EVERY parser state                        *)
+
+(* For every request-parser state p with a method and a version (not only those produced by the grammar) whose
+   header dictionary satisfies the invariant of HttpParser.headers (keys = lower-cased stored names, pairwise
+   different: see C02_headers_invariant_reachable), the bytes queued for the upstream server are exactly
+     method SP (path or "/") SP version CRLF  fields  CRLF  body
+   where fields = the (name as received, value) pairs of p in dictionary order,
+     minus proxy-authorization and proxy-connection,
+     with Via set (unless the FIRST request of the connection was a tunnel): an existing Via field (any case) keeps
+       its place and gets the name "Via" and the value  old ", " 1.1 <agent>;  otherwise "Via: 1.1 <agent>" is appended,
+     minus every name whose lower-case form is in --disable-headers,
+     with Content-Length set to the decimal body length iff the body is non-empty and no Transfer-Encoding field
+       is left (existing spelling and place kept, else appended),
+   and body = p.body, chunk-encoded anew with the default chunk size when p is chunked (_get_body_or_chunks).
+   The request object afterwards differs from p only in its header dictionary. *)
+Theorem C02_forward_of_parsed : forall cfg first_is_tunnel p,
+  is_request (ty p) = true -> truthy (method p) = true -> truthy (version p) = true -> hdr_inv (headers p) ->
+  exists p', queue_request_for_upstream cfg first_is_tunnel p = Ok (p', forward_of_parsed cfg first_is_tunnel p) /\
+             same_rest p p' /\ hdr_inv (headers p') /\
+             fields_of_parser p' =
+               (if first_is_tunnel then drop_hop (fields_of_parser p) else with_via cfg (drop_hop (fields_of_parser p))).
+Proof. exact forward_of_parsed_gen. Qed.
+Print Assumptions C02_forward_of_parsed.
+
+(* the hypothesis hdr_inv holds of a new parser and is kept by every parse call, whatever bytes are fed *)
+Theorem C02_headers_invariant_reachable :
+  (forall t, hdr_inv (headers (new_parser t))) /\
+  (forall al p raw p', parser_inv p -> hdr_inv (headers p) -> parse_with al p raw = Ok p' -> hdr_inv (headers p')).
+Proof. exact (conj hdr_inv_new parse_hdr_inv). Qed.
+Print Assumptions C02_headers_invariant_reachable.
+
+(* ===================================================================================== *)
+(* 2. a well-formed request, received in one piece as the first request of a connection     *)
+
+(* For every abstract well-formed request r (wf_request: token method other than CONNECT; absolute-form http
+   target of the UrlSpec grammar — reg-name / IPv4 / bracketed IPv6 host, optional userinfo, port, path and
+   query — made of visible characters, port 1..65535; HTTP/1.1 or HTTP/1.0; header fields with token names,
+   unique case-insensitively, any optional whitespace (SP / HTAB) around the values, values without CR / LF / NUL
+   and without outer whitespace; framing = none | Content-Length 1*DIGIT (leading zeros allowed) with exactly that
+   many body bytes | Transfer-Encoding: chunked (any case) with ANY chunk layout of the RFC 7230 grammar: sizes in
+   hex of any case with leading zeros, chunk extensions, last-chunk with extensions, trailer fields, no chunk at
+   all; no other Content-Length / Transfer-Encoding field) and every configuration in wf_cfg (the tree after the
+   fix: commits; Via entry a proper field value; framing fields not operator-disabled) with the request
+   authorised (auth_passes: --basic-auth off, or valid credentials present):
+   exactly one byte string w is handed to the upstream connection, and the REFERENCE parser reads from w exactly
+   [expected_fwd cfg r]: same method, origin-form of the target (path and query, "/" when absent), same version,
+   the client's fields in order with names and values intact — minus proxy-authorization / proxy-connection /
+   operator-disabled names, plus Via (appended to a client Via), the Content-Length of a non-empty body spelled
+   canonically — and a body whose decoded content is byte-identical. *)
+Theorem C02_forward_wellformed_and_equivalent : forall cfg r,
+  wf_request r = true -> wf_cfg cfg = true -> auth_passes cfg r = true ->
+  exists w, forward cfg [render_request r] = Some [w] /\
+            ref_parse_request w = Some (expected_fwd cfg r).
+Proof.
+  intros cfg r Wr Wc Wa.
+  assert (Np : nonempty_pieces [render_request r]).
+  { constructor; [|constructor]. unfold render_request. intros E. apply app_eq_nil in E as [E _].
+    apply wf_request_parts in Wr. destruct (token_facts _ (wp_method r Wr)) as [N _]. contradiction. }
+  destruct (first_request cfg r [render_request r] Wr Wc Wa Np (app_nil_r _)) as (w & st' & F & Q & P & _).
+  exists w. unfold forward. rewrite F, Q. split; [reflexivity|exact P].
+Qed.
+Print Assumptions C02_forward_wellformed_and_equivalent.
+
+(* ===================================================================================== *)
+(* 3. however the request bytes were segmented on arrival                                   *)
+
+(* Same conclusion for EVERY segmentation of the request bytes into non-empty pieces (recv() never delivers an
+   empty piece: b'' means the peer closed), one handle_data call per piece; moreover the bytes forwarded are the
+   same as for the unsegmented request.  Nothing is forwarded before the last byte arrived (the queue holds
+   exactly one entry, produced by the call that completes the request).  Obtained from (2), C03's two-piece law
+   and "a COMPLETE parser only accumulates" (Http/ParserFacts.v: two_piece, parse_with_complete_absorbs). *)
+Theorem C02_forward_preserves : forall cfg r segs,
+  wf_request r = true -> wf_cfg cfg = true -> auth_passes cfg r = true ->
+  nonempty_pieces segs -> concat segs = render_request r ->
+  exists w, forward cfg segs = Some [w] /\
+            ref_parse_request w = Some (expected_fwd cfg r) /\
+            forward cfg [render_request r] = Some [w].
+Proof.
+  intros cfg r segs Wr Wc Wa Np E.
+  destruct (first_request cfg r segs Wr Wc Wa Np E) as (w & st' & F & Q & P & _ & _ & Hw).
+  assert (Np1 : nonempty_pieces [render_request r]).
+  { constructor; [|constructor]. unfold render_request. intros X. apply app_eq_nil in X as [X _].
+    apply wf_request_parts in Wr. destruct (token_facts _ (wp_method r Wr)) as [N _]. contradiction. }
+  destruct (first_request cfg r [render_request r] Wr Wc Wa Np1 (app_nil_r _)) as (w1 & st1 & F1 & Q1 & _ & _ & _ & Hw1).
+  destruct (parse_request r Wr) as (p & Hp & _).
+  exists w. unfold forward. rewrite F, Q, F1, Q1. rewrite (Hw p Hp), (Hw1 p Hp). repeat split. rewrite <- (Hw p Hp). exact P.
+Qed.
+Print Assumptions C02_forward_preserves.
+
+(* ===================================================================================== *)
+(* 4. every position of the request on its connection                                       *)
+
+(* A later request: the connection is in a state where the first request is complete and was not a tunnel, the
+   proxy plugin is in place, the upstream connection exists and is open, and no pipelined request is in progress
+   (conn_ready st, pipeline_request is None: this is the state after the previous request was forwarded, unless
+   that one was a protocol upgrade).  Then the request, in any non-empty pieces, adds exactly one entry to the
+   upstream queue, read by the reference parser as [expected_fwd cfg r] (credentials are not asked for again);
+   the connection is ready again, with no pipelined request pending unless r itself is an upgrade request. *)
+Theorem C02_later_requests : forall cfg r segs st,
+  wf_request r = true -> wf_cfg cfg = true -> conn_ready st -> h_pipeline st = None ->
+  nonempty_pieces segs -> concat segs = render_request r ->
+  exists w st', feed cfg true st segs = Done false st' /\ upstream_queue st' = upstream_queue st ++ [w] /\
+                ref_parse_request w = Some (expected_fwd cfg r) /\
+                conn_ready st' /\ (is_upgrade_request r = false -> h_pipeline st' = None).
+Proof.
+  intros cfg r segs st Wr Wc R Hn Np E.
+  destruct (later_request cfg r segs st Wr Wc R Hn Np E) as (w & st' & A & B & C & D & F & _).
+  exists w, st'. exact (conj A (conj B (conj C (conj D F)))).
+Qed.
+Print Assumptions C02_later_requests.
+
+(* Whole connections: any number of requests, each in any non-empty pieces (a piece never spans two requests:
+   packing several requests into one segment is C04), none but possibly the last an upgrade request, the first
+   one authorised: the upstream connection is handed exactly one byte string per request, in order, each read by
+   the reference parser as the forwarded form of its request. *)
+Theorem C02_connection : forall cfg first rest,
+  wf_cfg cfg = true -> auth_passes cfg (fst first) = true ->
+  Forall request_pieces (first :: rest) ->
+  Forall (fun rs => is_upgrade_request (fst rs) = false) (removelast (first :: rest)) ->
+  exists ws, forward cfg (concat (map snd (first :: rest))) = Some ws /\
+             Forall2 (forwarded_as cfg) ws (first :: rest).
+Proof. exact connection. Qed.
+Print Assumptions C02_connection.
+
+(* ===================================================================================== *)
+(* non-vacuity and refutations                                                             *)
+
+Definition F (n pre v post : string) : hfield :=
+  {| hf_name := bs n; hf_pre := bs pre; hf_value := bs v; hf_post := bs post |}.
+Definition HT : string := String (Ascii.ascii_of_nat 9) EmptyString.
+Definition cfg_plain : fcfg :=
+  {| cf_agent := bs "proxy.py v2.4"; cf_disable := []; cf_auth_code := None; cf_via_append := true; cf_upgrade_complete := true |}.
+Definition cfg_auth : fcfg :=
+  {| cf_agent := bs "proxy.py v2.4"; cf_disable := [bs "x-drop"; bs "user-agent"]; cf_auth_code := Some (bs "dXNlcjpwYXNz");
+     cf_via_append := true; cf_upgrade_complete := true |}.
+
+(* Content-Length body, userinfo + port + query in the target, name casings, value spacings, hop-by-hop and
+   disabled fields, credentials, a client Via, leading zeros in Content-Length *)
+Definition ex_cl : request :=
+  {| q_method := bs "POST";
+     q_target := Absolute (Some (bs "user", Some (bs "pw"))) (RegName (bs "example.com")) (Some (bs "8080")) (Some (bs "/a/b?x=1"));
+     q_version := bs "HTTP/1.1";
+     q_hs1 := [F "hOsT" HT "example.com:8080" " "; F "Proxy-Connection" " " "keep-alive" ""; F "X-Drop" "" "1" "";
+               F "pRoXy-AuThOrIzAtIoN" "  " "basic  dXNlcjpwYXNz" ""; F "via" " " "1.0 fred" ""];
+     q_framing := RLength (F "content-LENGTH" " " "0005" "") (bs "hello");
+     q_hs2 := [F "Accept" "" "*/*" "  "; F "User-Agent" " " "curl/8" ""] |}.
+(* three chunks (upper/lower-case hex, leading zeros, an extension), last-chunk extension, a trailer; IPv6 host *)
+Definition ex_chunked : request :=
+  {| q_method := bs "PUT"; q_target := Absolute None (IPv6 (bs "::1")) None (Some (bs "/up"));
+     q_version := bs "HTTP/1.1";
+     q_hs1 := [F "Host" " " "[::1]" ""];
+     q_framing := RChunked (F "Transfer-Encoding" " " "Chunked" "")
+       {| ch_chunks := [ {| ck_size := bs "5"; ck_ext := []; ck_data := bs "hello" |};
+                         {| ck_size := bs "00A"; ck_ext := bs ";name=val"; ck_data := bs "0123456789" |};
+                         {| ck_size := bs "0b"; ck_ext := []; ck_data := bs " chunked!!!" |} ];
+          ch_last_size := bs "0"; ch_last_ext := bs ";last"; ch_trailers := [bs "X-Trailer: 1"] |};
+     q_hs2 := [F "Expect" " " "100-continue" ""] |}.
+(* empty chunked body, HTTP/1.0, no path *)
+Definition ex_empty_chunked : request :=
+  {| q_method := bs "POST"; q_target := Absolute None (IPv4 (bs "10.0.0.1")) (Some (bs "81")) None;
+     q_version := bs "HTTP/1.0"; q_hs1 := [];
+     q_framing := RChunked (F "transfer-encoding" "" "chunked" "")
+       {| ch_chunks := []; ch_last_size := bs "000"; ch_last_ext := []; ch_trailers := [] |};
+     q_hs2 := [] |}.
+(* a later upgrade request *)
+Definition ex_upgrade : request :=
+  {| q_method := bs "GET"; q_target := Absolute None (RegName (bs "h")) None (Some (bs "/ws")); q_version := bs "HTTP/1.1";
+     q_hs1 := [F "Connection" " " "Upgrade" ""; F "Upgrade" " " "websocket" ""; F "Host" " " "h" ""];
+     q_framing := RNone; q_hs2 := [] |}.
+
+Definition via24 : bytes := bs "1.1 proxy.py v2.4".
+
+(* the hypotheses of the theorems are satisfiable, and the conclusions compute: every example is inside the
+   domain, is forwarded as expected_fwd says — also when it arrives one byte per piece — and the expectation is
+   the intended one (spelled out for the first two) *)
+Example C02_nonvacuous :
+  forallb (fun cr => wf_request (snd cr) && wf_cfg (fst cr) && auth_passes (fst cr) (snd cr))
+          [(cfg_auth, ex_cl); (cfg_plain, ex_chunked); (cfg_plain, ex_empty_chunked); (cfg_plain, ex_upgrade)] = true /\
+  forallb (fun cr =>
+             match forward (fst cr) [render_request (snd cr)],
+                   forward (fst cr) (map (fun x => [x]) (render_request (snd cr))) with
+             | Some [w], Some [w'] => bytes_eqb w w' && option_eqb fwd_eqb (ref_parse_request w) (Some (expected_fwd (fst cr) (snd cr)))
+             | _, _ => false
+             end)
+          [(cfg_auth, ex_cl); (cfg_plain, ex_chunked); (cfg_plain, ex_empty_chunked); (cfg_plain, ex_upgrade)] = true /\
+  expected_fwd cfg_auth ex_cl =
+    {| f_method := bs "POST"; f_target := bs "/a/b?x=1"; f_version := bs "HTTP/1.1";
+       f_headers := [(bs "hOsT", bs "example.com:8080"); (bs "Via", bs "1.0 fred, 1.1 proxy.py v2.4");
+                     (bs "content-LENGTH", bs "5"); (bs "Accept", bs "*/*")];
+       f_body := bs "hello" |} /\
+  expected_fwd cfg_plain ex_chunked =
+    {| f_method := bs "PUT"; f_target := bs "/up"; f_version := bs "HTTP/1.1";
+       f_headers := [(bs "Host", bs "[::1]"); (bs "Transfer-Encoding", bs "Chunked"); (bs "Expect", bs "100-continue");
+                     (bs "Via", via24)];
+       f_body := bs "hello0123456789 chunked!!!" |} /\
+  (* two requests on one connection, the second one an upgrade request cut after its Upgrade line *)
+  (let raw2 := render_request ex_upgrade in
+   match forward cfg_plain [render_request ex_empty_chunked; firstn 70 raw2; skipn 70 raw2] with
+   | Some [w1; w2] => option_eqb fwd_eqb (ref_parse_request w2) (Some (expected_fwd cfg_plain ex_upgrade))
+   | _ => false
+   end = true).
+Proof. vm_compute. repeat split. Qed.
+Print Assumptions C02_nonvacuous.
+
+(* ---- the code as found violated the property in two ways (both repaired by fix: commits) ---- *)
+
+(* (a) before fix C02-via-append: a Via field sent by the client was REPLACED: the origin is sent a request whose
+   Via value no longer contains the client's "1.0 fred" *)
+Definition as_found_via (cfg : fcfg) : fcfg :=
+  {| cf_agent := cf_agent cfg; cf_disable := cf_disable cfg; cf_auth_code := cf_auth_code cfg;
+     cf_via_append := false; cf_upgrade_complete := cf_upgrade_complete cfg |}.
+Theorem C02_via_overwrite_refuted :
+  exists cfg r w e, wf_request r = true /\ auth_passes cfg r = true /\
+    forward (as_found_via cfg) [render_request r] = Some [w] /\ ref_parse_request w = Some e /\
+    fwd_eqb e (expected_fwd cfg r) = false /\
+    get_ci L_VIA (f_headers e) = Some via24 /\
+    get_ci L_VIA (f_headers (expected_fwd cfg r)) = Some (bs "1.0 fred, " ++ via24).
+Proof.
+  exists cfg_auth, ex_cl. eexists. eexists. vm_compute. repeat split.
+Qed.
+Print Assumptions C02_via_overwrite_refuted.
+
+(* (b) before fix C02-upgrade-request-in-progress: a later request carrying Connection and Upgrade fields that
+   arrives in two pieces (cut after both field lines) is not forwarded; the rest of its own bytes is queued raw *)
+Definition as_found_upgrade (cfg : fcfg) : fcfg :=
+  {| cf_agent := cf_agent cfg; cf_disable := cf_disable cfg; cf_auth_code := cf_auth_code cfg;
+     cf_via_append := cf_via_append cfg; cf_upgrade_complete := false |}.
+Theorem C02_upgrade_in_progress_refuted :
+  exists cfg r1 r2 a b w1 w2,
+    wf_request r1 = true /\ wf_request r2 = true /\ is_upgrade_request r1 = false /\
+    a ++ b = render_request r2 /\ a <> [] /\ b <> [] /\
+    forward (as_found_upgrade cfg) [render_request r1; a; b] = Some [w1; w2] /\
+    w2 = b /\ ref_parse_request w2 = None /\
+    (* while unsegmented it is forwarded properly by the same code *)
+    (exists w2', forward (as_found_upgrade cfg) [render_request r1; render_request r2] = Some [w1; w2'] /\
+                 ref_parse_request w2' = Some (expected_fwd cfg r2)).
+Proof.
+  exists cfg_plain, ex_empty_chunked, ex_upgrade, (firstn 70 (render_request ex_upgrade)), (skipn 70 (render_request ex_upgrade)).
+  eexists. eexists. vm_compute. repeat split; try discriminate. eexists. split; reflexivity.
+Qed.
+Print Assumptions C02_upgrade_in_progress_refuted.
+
+(* ---- known finding C02-te-list-not-chunked (current code): the guard "Transfer-Encoding value is exactly
+   chunked" in wf_framing is needed.  A request whose Transfer-Encoding is a coding LIST ending in chunked
+   ("gzip, chunked", legal per RFC 7230 section 3.3.1) is taken to have no body: the header section is forwarded
+   at once — still announcing the chunked coding — and the body bytes are never forwarded (they stay in the
+   first request's buffer). *)
+Definition te_list_raw : bytes :=
+  bs "POST http://h.example/ HTTP/1.1" ++ CRLF ++ bs "Host: h.example" ++ CRLF ++
+  bs "Transfer-Encoding: gzip, chunked" ++ CRLF ++ CRLF ++ bs "3" ++ CRLF ++ bs "abc" ++ CRLF ++ bs "0" ++ CRLF ++ CRLF.
+Theorem C02_te_list_refuted :
+  exists w st, feed cfg_plain true init_state [te_list_raw] = Done false st /\ upstream_queue st = [w] /\
+    w = bs "POST / HTTP/1.1" ++ CRLF ++ bs "Host: h.example" ++ CRLF ++ bs "Transfer-Encoding: gzip, chunked" ++ CRLF ++
+        bs "Via: " ++ via24 ++ CRLF ++ CRLF /\
+    buffer (h_request st) = Some (bs "3" ++ CRLF ++ bs "abc" ++ CRLF ++ bs "0" ++ CRLF ++ CRLF) /\
+    ref_parse_request w = None.
+Proof. eexists. eexists. vm_compute. repeat split. Qed.
+Print Assumptions C02_te_list_refuted.
